@@ -87,10 +87,16 @@ type Req struct {
 }
 
 type Step struct {
-	Op  string `json:"op"` // start | resume | sleep
+	Op  string `json:"op"` // start | resume | sleep | release
 	ID  int    `json:"id,omitempty"`
 	Req *Req   `json:"req,omitempty"`
 	Ms  int    `json:"ms,omitempty"`
+	// Hold (start / resume): the token server keeps the first token request of this phase waiting
+	// (the call is then inside a token acquisition, holding its host's lock) until a "release"
+	// step for the same call. Calls started or resumed meanwhile are not waited for: they run
+	// freely (and queue on the lock when they are for the same host); what they do is observed
+	// after the held phase is over, one call at a time.
+	Hold bool `json:"hold,omitempty"`
 }
 
 type CaseIn struct {
@@ -152,6 +158,10 @@ type Ev struct {
 	Resp *Resp   `json:"resp,omitempty"`
 	Res  *Result `json:"res,omitempty"`
 	T    int64   `json:"t"`
+	// W (markers of calls that ran while another call was held at the token server): the earliest
+	// moment the phase can have begun (the release of the held call when this call showed no sign
+	// of life before it, else its launch); T lies within the phase, at its first action observed.
+	W int64 `json:"w,omitempty"`
 }
 
 type Observed struct {
@@ -177,6 +187,17 @@ type thr struct {
 	sig    chan struct{}
 	parked bool
 	done   bool
+	// token-server gate
+	hold      bool          // armed for the current phase
+	tokParked bool          // waiting at the token server
+	tokGate   chan struct{} //
+	relT      int64         // when it was last released (us)
+	followers []*thr        // calls launched while it was held
+	// a call launched while another was held
+	behind  *thr
+	pending *Ev   // its marker, logged at its first observable action
+	launchT int64 // us
+	arrT    int64 // its first observable action reached the harness (us)
 }
 
 type world struct {
@@ -190,6 +211,8 @@ type world struct {
 	issued  map[string]*issue
 	refresh map[string]bool
 	threads map[int]*thr
+	cond    *sync.Cond // on mu: a phase ended / a gate opened
+	turn    *thr       // the late-observed call whose phase is being recorded
 	quiet   bool
 	inFake  bool
 	touched bool
@@ -198,6 +221,7 @@ type world struct {
 }
 
 func (w *world) log(e Ev) {
+	w.admit(e.ID)
 	w.mu.Lock()
 	defer w.mu.Unlock()
 	if w.quiet {
@@ -205,6 +229,67 @@ func (w *world) log(e Ev) {
 	}
 	e.T = time.Since(w.t0).Microseconds()
 	w.evs = append(w.evs, e)
+}
+
+func (w *world) nowUs() int64 {
+	if us := time.Since(w.t0).Microseconds(); us > 0 {
+		return us
+	}
+	return 1
+}
+
+// admit is called at every observable action of call id. For a call launched while another
+// call was held at the token server it waits until the held phase is over (that call is parked
+// at the registry or has returned) and no other such call is being recorded, then logs the
+// call's marker; the recording turn is given up when the call parks or returns.
+func (w *world) admit(id int) {
+	w.mu.Lock()
+	defer w.mu.Unlock()
+	t := w.threads[id]
+	if t == nil || t.pending == nil {
+		return
+	}
+	if t.arrT == 0 {
+		t.arrT = w.nowUs()
+	}
+	over := func(a *thr) bool { return !a.tokParked && (a.parked || a.done) }
+	for !w.quiet && !(over(t.behind) && (w.turn == nil || w.turn == t)) {
+		w.cond.Wait()
+	}
+	if t.pending == nil {
+		return
+	}
+	e := *t.pending
+	t.pending = nil
+	if w.quiet {
+		return
+	}
+	w.turn = t
+	e.T = w.nowUs()
+	e.W = t.launchT
+	if t.behind.relT != 0 && t.arrT >= t.behind.relT {
+		e.W = t.behind.relT
+	}
+	w.evs = append(w.evs, e)
+}
+
+// phaseEnd: call t has parked at the registry or returned (w.mu held).
+func (w *world) phaseEnd(t *thr) {
+	t.hold = false
+	if w.turn == t {
+		w.turn = nil
+	}
+	w.cond.Broadcast()
+}
+
+// holder is the call held at the token server, if any (w.mu held).
+func (w *world) holder() *thr {
+	for _, t := range w.threads {
+		if t.tokParked {
+			return t
+		}
+	}
+	return nil
 }
 
 type reqBody struct {
@@ -508,6 +593,7 @@ func (w *world) httpResponse(req *http.Request, id int, r Resp) (*http.Response,
 func (w *world) RoundTrip(req *http.Request) (*http.Response, error) {
 	if idStr := req.Header.Get("X-Verif-Call"); idStr != "" {
 		id, _ := strconv.Atoi(idStr)
+		w.admit(id)
 		if req.Body != nil {
 			w.mu.Lock()
 			w.inFake = true
@@ -530,6 +616,7 @@ func (w *world) RoundTrip(req *http.Request) (*http.Response, error) {
 			w.mu.Lock()
 			quiet := w.quiet
 			t.parked = true
+			w.phaseEnd(t)
 			w.mu.Unlock()
 			if !quiet {
 				t.sig <- struct{}{}
@@ -539,6 +626,7 @@ func (w *world) RoundTrip(req *http.Request) (*http.Response, error) {
 		return w.httpResponse(req, id, r)
 	}
 	id, _ := req.Context().Value(callKey{}).(int)
+	w.admit(id)
 	m := &Msg{Auth: decodeAuthz(req.Header)}
 	if req.Method == "POST" {
 		m.Kind = "post"
@@ -560,6 +648,15 @@ func (w *world) RoundTrip(req *http.Request) (*http.Response, error) {
 		m.Query = sortedValues(req.URL.Query())
 	}
 	w.mu.Lock()
+	if t := w.threads[id]; t != nil && t.hold && !w.quiet {
+		// the token server takes its time: the answer (and the token's life) starts at the release
+		t.hold = false
+		t.tokParked = true
+		w.mu.Unlock()
+		t.sig <- struct{}{}
+		<-t.tokGate
+		w.mu.Lock()
+	}
 	r := w.tokRespond(m)
 	w.msgN++
 	w.mu.Unlock()
@@ -643,9 +740,14 @@ func (w *world) call(tr http.RoundTripper, t *thr, rq *Req) {
 	w.mu.Lock()
 	t.done = true
 	t.parked = false
+	w.phaseEnd(t)
 	w.mu.Unlock()
 	t.sig <- struct{}{}
 }
+
+// launchGrace is how long the harness lets a call that is not waited for run on its own before
+// the next step (it reaches its host's lock, or its first round trip, well within this).
+const launchGrace = 30 * time.Millisecond
 
 func recoverCall(f func()) (panicked bool, val string) {
 	defer func() {
@@ -672,6 +774,7 @@ func (w *world) wait(t *thr) {
 func Run(in *CaseIn) *Observed {
 	w := &world{in: in, t0: time.Now(), lifeN: map[string]int{}, issued: map[string]*issue{},
 		refresh: map[string]bool{}, threads: map[int]*thr{}, realms: map[string]bool{}}
+	w.cond = sync.NewCond(&w.mu)
 	for _, h := range in.Hosts {
 		if h.Refresh != "" {
 			w.refresh[h.Refresh] = true
@@ -701,10 +804,24 @@ func Run(in *CaseIn) *Observed {
 			if w.threads[st.ID] != nil || st.Req == nil {
 				continue
 			}
-			t := &thr{id: st.ID, gate: make(chan struct{}), sig: make(chan struct{}, 2)}
+			t := &thr{id: st.ID, gate: make(chan struct{}), sig: make(chan struct{}, 2), tokGate: make(chan struct{})}
 			w.mu.Lock()
+			h := w.holder()
+			if h != nil {
+				// launched while h is held at the token server: observed later (see admit)
+				t.behind, t.launchT = h, w.nowUs()
+				t.pending = &Ev{Kind: "start", ID: st.ID, Req: st.Req}
+				h.followers = append(h.followers, t)
+			} else {
+				t.hold = st.Hold
+			}
 			w.threads[st.ID] = t
 			w.mu.Unlock()
+			if h != nil {
+				go w.call(tr, t, st.Req)
+				time.Sleep(launchGrace)
+				continue
+			}
 			w.log(Ev{Kind: "start", ID: st.ID, Req: st.Req})
 			go w.call(tr, t, st.Req)
 			w.wait(t)
@@ -712,28 +829,74 @@ func Run(in *CaseIn) *Observed {
 			w.mu.Lock()
 			t := w.threads[st.ID]
 			ok := t != nil && t.parked && !t.done
+			var h *thr
 			if ok {
 				t.parked = false
+				if h = w.holder(); h != nil {
+					t.behind, t.launchT = h, w.nowUs()
+					t.arrT = 0
+					t.pending = &Ev{Kind: "resume", ID: st.ID}
+					h.followers = append(h.followers, t)
+				} else {
+					t.hold = st.Hold
+				}
 			}
 			w.mu.Unlock()
 			if !ok {
 				continue
 			}
+			if h != nil {
+				t.gate <- struct{}{}
+				time.Sleep(launchGrace)
+				continue
+			}
 			w.log(Ev{Kind: "resume", ID: st.ID})
 			t.gate <- struct{}{}
 			w.wait(t)
+		case "release":
+			w.mu.Lock()
+			t := w.threads[st.ID]
+			ok := t != nil && t.tokParked
+			var fs []*thr
+			if ok {
+				t.tokParked = false
+				t.relT = w.nowUs()
+				fs, t.followers = t.followers, nil
+			}
+			w.mu.Unlock()
+			if !ok {
+				continue
+			}
+			t.tokGate <- struct{}{}
+			w.wait(t)
+			for _, f := range fs {
+				if !w.hung {
+					w.wait(f)
+				}
+			}
 		}
 	}
 	// let whatever is still in flight finish, unobserved
 	w.mu.Lock()
 	w.quiet = true
-	var parked []*thr
+	w.cond.Broadcast()
+	var parked, held []*thr
 	for _, t := range w.threads {
 		if t.parked && !t.done {
 			parked = append(parked, t)
 		}
+		if t.tokParked {
+			t.tokParked = false
+			held = append(held, t)
+		}
 	}
 	w.mu.Unlock()
+	for _, t := range held {
+		select {
+		case t.tokGate <- struct{}{}:
+		case <-time.After(2 * time.Second):
+		}
+	}
 	for _, t := range parked {
 		select {
 		case t.gate <- struct{}{}:
@@ -784,12 +947,14 @@ func ambiguous(in *CaseIn, evs []Ev) bool {
 				if is.host != e.Req.Host {
 					continue
 				}
-				d := e.T + 1_000_000 - is.exp
-				if d < 0 {
-					d = -d
+				// the clock was read between lo and e.T (lo = e.T unless the call ran while
+				// another was held at the token server)
+				lo := e.T
+				if e.W != 0 && e.W < lo {
+					lo = e.W
 				}
 				// a one-second token is expired at every later start whatever the clock says
-				if d < 50_000 && is.life != 1 {
+				if lo+1_000_000-is.exp < 50_000 && is.exp-(e.T+1_000_000) < 50_000 && is.life != 1 {
 					return true
 				}
 			}
